@@ -89,7 +89,12 @@ Value& OpBIORExpression::value(Context& ctx) const
         case Type::BOOLEAN:
         {
           if (!a2.isNull())
-            return LVAL2(Value(Bool(*a2.boolean())), a1, a2);
+          {
+            if (*a2.boolean() == true)
+              return LVAL2(Value(Bool(true)), a1, a2);        /* true */
+            if (!a1.isNull())
+              return LVAL2(Value(Bool(false)), a1, a2);       /* false */
+          }
           return LVAL2(Value(Value::type_boolean), a1, a2);   /* null */
         }
         default:
